@@ -7,6 +7,7 @@ import (
 	"time"
 
 	"github.com/ohler55/slip"
+	"github.com/ohler55/slip/pkg/cl"
 )
 
 func init() {
@@ -172,6 +173,10 @@ func evalClause(s *slip.Scope, clause slip.List, v any, depth int) (result slip.
 	}
 	for i := 2; i < len(clause); i++ {
 		result = slip.EvalArg(ns, clause, i, depth)
+		switch result.(type) {
+		case *slip.ReturnResult, *cl.GoTo:
+			return result
+		}
 	}
 	return
 }
